@@ -19,7 +19,7 @@ const pkgCompiler = "internal/compiler"
 func init() {
 	register("C13", &propSpec{
 		Explanation: "Structural necessary conditions of totality and faithful failure: (R1) every lexer pattern is anchored and cannot match the empty string, every handler and the fallback advance; (R2) every loop of the parser consumes a token on each path back to its head; (R4) the diagnostics API tolerates missing locations and no literal nil is passed where the callee dereferences it; (R5) Compile turns a pipeline error into a failing result and derives success from the error count; main exits non-zero iff !Success; (R6) generated files are removed on every exit of the native phase and the wasm module is written only behind an error gate; (R8) per-token work does not copy the whole source; (R9) diagnostic locations do not alias the lexer's moving position. Does not decide wall-clock bounds, memory use, QBE, as or ld.",
-		Quick:       []ruleFn{c13R1, c13R2, c13R4, c13R5, c13R6, c13R8R9},
+		Quick:       []ruleFn{c13R1, c13R2, c13R3b, c13R4, c13R5, c13R6, c13R8R9},
 	})
 }
 
@@ -928,4 +928,66 @@ func c13R8R9(c *Ctx, r *Report) {
 		r.OK(r9, "lexer+parser", "NewLocation call sites scanned", "-", itoa(n)+" sites")
 	}
 	r.Floor(r9, n, 10, "NewLocation call sites in lexer/parser")
+}
+
+// C13.R3b: graph searches keep their visited set monotone. A recursive search that takes a
+// `visited` map and un-marks a node when it leaves it enumerates every simple path: exponential time
+// on a chain of branches (the compiler hangs on a long but ordinary function).
+func c13R3b(c *Ctx, r *Report) {
+	const rule = "C13.R3b"
+	r.Describe(rule, "recursive graph searches never un-mark visited nodes (polynomial search)")
+	n := 0
+	for _, p := range c.Pkgs {
+		rel := relOf(p.PkgPath)
+		if !strings.HasPrefix(rel, "internal/") {
+			continue
+		}
+		for _, fn := range c.AllFns(rel) {
+			sig := fn.Obj.Type().(*types.Signature)
+			var vis *types.Var
+			for i := 0; i < sig.Params().Len(); i++ {
+				pv := sig.Params().At(i)
+				if m, ok := pv.Type().Underlying().(*types.Map); ok {
+					if b, ok := m.Elem().Underlying().(*types.Basic); ok && b.Kind() == types.Bool {
+						vis = pv
+					}
+				}
+			}
+			if vis == nil {
+				continue
+			}
+			info := fn.Info()
+			recursive := false
+			for _, cl := range callsIn(fn.Decl.Body, true) {
+				if f := callee(info, cl); f != nil && f == fn.Obj {
+					recursive = true
+				}
+			}
+			if !recursive {
+				continue
+			}
+			n++
+			bad := token.NoPos
+			ast.Inspect(fn.Decl.Body, func(nd ast.Node) bool {
+				switch x := nd.(type) {
+				case *ast.AssignStmt:
+					for i, l := range x.Lhs {
+						if ix, ok := ast.Unparen(l).(*ast.IndexExpr); ok && usesVar(info, ix.X, vis) && i < len(x.Rhs) {
+							if v := constOf(info, x.Rhs[i]); v == nil || !boolVal(v) {
+								bad = x.Pos()
+							}
+						}
+					}
+				case *ast.CallExpr:
+					if id, ok := ast.Unparen(x.Fun).(*ast.Ident); ok && id.Name == "delete" && len(x.Args) == 2 && usesVar(info, x.Args[0], vis) {
+						bad = x.Pos()
+					}
+				}
+				return true
+			})
+			r.Check(!bad.IsValid(), rule, fn.Name(), "visited set "+vis.Name()+" only grows", c.pos(fn.Decl.Pos()),
+				"the search removes nodes from its visited set when backtracking ("+c.pos(bad)+"): it then explores every simple path, which is exponential in the number of sequential branches")
+		}
+	}
+	r.Floor(rule, n, 2, "recursive searches with a visited set")
 }
